@@ -1,4 +1,5 @@
 import TracklibVerif.Lemmas.MinCircle
+import TracklibVerif.Lemmas.MinCircleAcute
 import Mathlib.Algebra.Order.Field.Rat
 set_option linter.unusedSectionVars false
 /-! # C12 — `minCircle` (util/geometrics.py: `__welzl`, `__circle`), the routine behind `findStopsGlobal`'s size test
@@ -72,6 +73,37 @@ theorem circle_three (p1 p2 p3 : Pt α) :
     rcases hh with hm | hh
     · exact Or.inl ⟨hm, fun c' => cands3_minimal hm c'⟩
     · exact Or.inr hh
+
+/-- `__circle(p1, p2, p3)` in exact arithmetic is the TRUE minimal enclosing circle of its three points, in both cases
+(candidate: two points on a diameter; no candidate — no obtuse angle — the circle through the three points, whose centre is a
+convex combination of them). What Welzl's recursion asks of this leaf is something else — the smallest circle with the three
+points ON it — and the two differ exactly when there is a candidate: that is the defect behind `mincircle_not_enclosing`. -/
+theorem circle_three_minimal {p1 p2 p3 : Pt α} {c : Circ α} (h : circle3 p1 p2 p3 = .circ c) :
+    Enc c p1 ∧ Enc c p2 ∧ Enc c p3 ∧ ∀ c' : Circ α, Enc c' p1 → Enc c' p2 → Enc c' p3 → c.r2 ≤ c'.r2 := by
+  rcases circle_three p1 p2 p3 with ⟨_, hn⟩ | ⟨hd, c0, hc0, e1, e2, e3, hh⟩
+  · rw [hn] at h; cases h
+  · rw [hc0] at h; cases h
+    refine ⟨e1, e2, e3, ?_⟩
+    rcases hh with ⟨_, hmin⟩ | ⟨hnil, rfl, _⟩
+    · exact hmin
+    · exact fun c' => circum_minimal p1 p2 p3 hd hnil c'
+
+/-- inputs of at most two fixes, EVERY draw sequence: no fix — the circle of centre (0,0), radius 0; one fix — the fix itself,
+radius 0; two fixes that `ENUCoords.__eq__` tells apart — the circle on their diameter, which is the true minimal circle
+(`circle_two_minimal`). (Two fixes within 0.0001 of each other in all three coordinates: the zero circle on one of them.) -/
+theorem mincircle_small (eps : α) (draw : Nat → Nat) :
+    (∃ c, (minCircleOfPoints eps draw ([] : List (Pt α))).1 = .circ c ∧ c.cx = 0 ∧ c.cy = 0 ∧ c.r2 = 0)
+    ∧ (∀ p : Pt α, (minCircleOfPoints eps draw [p]).1 = .circ (circle1 p))
+    ∧ (∀ p q : Pt α, ptEq eps p q = false → ptEq eps q p = false →
+        ∃ c, (minCircleOfPoints eps draw [p, q]).1 = .circ c ∧ c.r2 = (circle2 p q).r2 ∧
+          d2 p.x p.y c.cx c.cy = c.r2 ∧ d2 q.x q.y c.cx c.cy = c.r2 ∧
+          ∀ c' : Circ α, Enc c' p → Enc c' q → c.r2 ≤ c'.r2) := by
+  refine ⟨⟨⟨0, 0, 0⟩, by simp [minCircleOfPoints, welzl, base], rfl, rfl, rfl⟩, mincircle_single eps draw, ?_⟩
+  intro p q h1 h2
+  rcases mincircle_pair eps draw p q h1 h2 with h | h
+  · exact ⟨_, h, rfl, circle2_left p q, circle2_right p q, fun c' => circle2_minimal p q c'⟩
+  · refine ⟨_, h, ?_, circle2_right q p, circle2_left q p, fun c' a b => circle2_minimal q p c' b a⟩
+    simp only [circle2, d2]; ring
 
 /-- the leaf circle of a boundary list encloses the (up to three) points it is built on -/
 theorem base_encloses {R : List (Pt α)} {c : Circ α} (h : base R = .circ c) : ∀ p ∈ R.take 3, Enc c p := by
